@@ -147,3 +147,6 @@ pub fn dsv_build_index_dispatch(text: &[u8], config: &crate::dsv::DsvConfig) -> 
 pub fn dsv_index_from_words(markers: Vec<u64>, newlines: Vec<u64>, text_len: usize) -> crate::dsv::DsvIndex {
     crate::dsv::DsvIndex::new_lightweight(crate::dsv::verif_index_lightweight_new(markers, newlines, text_len))
 }
+/// YAML scanning kernels per dispatch level (C16): scalar kernels always,
+/// `yaml_simd::x86` (AVX2 / SSE2 kernels, dispatch clamp) on x86_64 unless `scalar-yaml`.
+pub use crate::yaml::simd::verif as yaml_simd;
